@@ -7,7 +7,8 @@ import IcyVerif.Drv.Font
       fmt = xb | adf | idf; opts bit0 = SAUCE, bit1 = compress; date = the 8 date characters of the SAUCE record (`-` without);
       ice = 0 | 1 | 2; pal = `d` | 48 hex bytes (16 colours); cells = `ch.fg.bg.flags.page,…` (row-major);
       fonts = `slot.<name hex>.<glyphs>.<height>.<glyph bytes hex>,…`
-      answer: `save=<len>:<fnv> blocks=<slot>@<offset>+<len>,… at=<1|0 per block: the bytes there are the font data>
+      answer: `save=<len>:<fnv> blocks=?` (ADF / IDF file with a font block that is not 4096 bytes long) or
+              `save=<len>:<fnv> blocks=<slot>@<offset>+<len>,… at=<1|0 per block: the bytes there are the font data>
                load=<slot>.<height>.<fnv of data>,… rt=<1|0 per block: block i comes back as loaded font i, glyph for glyph>`
               or `save=err|panic`, `… load=rej`
   icy <sauce> <pal> <layers> <fonts>
@@ -61,6 +62,13 @@ def fileCase (fmt opts date ice pal w cells fonts : String) : String :=
     | .panic => "save=panic"
     | .ok bytes =>
       let blocks := fontBlocks f o p
+      -- ADF / IDF: the format's font block has 4096 bytes; a writer that embedded something else (findings
+      -- `adf_font_height_of_slot0` / `idf_font_height_of_slot0`) wrote no file of the format: only length and hash are compared
+      let fixedBlock := match f with
+        | .adf => true
+        | .idf => true
+        | _ => false
+      if fixedBlock && blocks.any (fun b => b.2.2 != BinFmt.adfFontSize) then s!"save={bytes.length}:{fnv bytes} blocks=?" else
       let at_ := blocks.map fun b =>
         match lookupFont p.fonts b.1 with
         | some font => (bytes.drop b.2.1).take b.2.2 == font.data
